@@ -215,14 +215,9 @@ pub trait DynPart: Sync + Send {
     fn run(&self, env: &RunEnv) -> PartReport;
     /// replay a stored case; Ok(None) = passes, Ok(Some(fail)) = fails
     fn replay(&self, case: &Value) -> Result<Option<Fail>, String>;
-    /// Coverage-guided entry: the bytes are the entropy of the part's own strategy (proptest's
-    /// pass-through RNG), so a mutation of the bytes is a structured mutation of the case.  Returns
-    /// the generated case, whether it was non-trivial, and the failure, if any.
-    fn fuzz_case(&self, _data: &[u8]) -> Option<(Value, bool, Option<Fail>)> {
-        None
-    }
-    /// the case `fuzz_case` would run for these bytes, without running it
-    fn fuzz_generate(&self, _data: &[u8]) -> Option<Value> {
+    /// one case of the part's own (quick-tier) strategy from a seed, as JSON — corpus seeds and
+    /// donors of the structure-aware mutator of the coverage-guided campaigns
+    fn generate(&self, _seed: u64) -> Option<Value> {
         None
     }
 }
@@ -495,62 +490,189 @@ impl<P: Prop> DynPart for Part<P> {
         }
     }
 
-    fn fuzz_generate(&self, data: &[u8]) -> Option<Value> {
-        let case = self.fuzz_tree(data)?;
-        Some(serde_json::to_value(&case).unwrap_or(Value::Null))
-    }
-
-    fn fuzz_case(&self, data: &[u8]) -> Option<(Value, bool, Option<Fail>)> {
-        let case = self.fuzz_tree(data)?;
-        let mut st = CaseStats::default();
-        let r = run_check(&self.0, &case, &mut st);
-        Some((serde_json::to_value(&case).unwrap_or(Value::Null), st.nontrivial, r.err()))
-    }
-}
-
-impl<P: Prop> Part<P> {
-    fn fuzz_tree(&self, data: &[u8]) -> Option<P::Case> {
-        let cfg = Config { failure_persistence: None, rng_seed: RngSeed::Fixed(0), ..Config::default() };
-        // an exhausted pass-through RNG yields zeros, on which rand's rejection sampling never
-        // terminates: the input is followed by a fixed pseudo-random tail
-        static TAIL: std::sync::OnceLock<Vec<u8>> = std::sync::OnceLock::new();
-        let tail = TAIL.get_or_init(|| {
-            let mut x = 0x9E37_79B9_7F4A_7C15u64;
-            let mut v = Vec::with_capacity(1 << 20);
-            while v.len() < (1 << 20) {
-                x = splitmix(x);
-                v.extend_from_slice(&x.to_le_bytes());
-            }
-            v
-        });
-        let mut bytes = Vec::with_capacity(data.len() + tail.len());
-        bytes.extend_from_slice(data);
-        bytes.extend_from_slice(tail);
-        let rng = TestRng::from_seed(RngAlgorithm::PassThrough, &bytes);
-        let mut runner = TestRunner::new_with_rng(cfg, rng);
-        // the quick-tier strategy: small cases, many executions
+    fn generate(&self, seed: u64) -> Option<Value> {
+        let mut bytes = [0u8; 32];
+        let mut x = seed;
+        for chunk in bytes.chunks_mut(8) {
+            x = splitmix(x);
+            chunk.copy_from_slice(&x.to_le_bytes());
+        }
+        let mut runner = make_runner(bytes);
         let tree = self.0.strategy(Tier::Quick).new_tree(&mut runner).ok()?;
-        Some(tree.current())
+        serde_json::to_value(&tree.current()).ok()
     }
 }
 
-/// One execution of a coverage-guided campaign (see `/verif/fuzz`): returns `Err(replay path)` for a
-/// failure that is not a listed known finding.
-pub fn fuzz_one(prop: &Property, part: &str, known: &crate::known::Known, data: &[u8], out_dir: &std::path::Path) -> Result<bool, String> {
-    let Some(p) = prop.parts.iter().find(|p| p.name() == part) else { return Ok(false) };
-    let Some((case, nontrivial, fail)) = p.fuzz_case(data) else { return Ok(false) };
-    match fail {
-        None => Ok(nontrivial),
-        Some(f) if known.is_known(prop.id, &f.sig) => Ok(nontrivial),
-        Some(f) => {
+/// One execution of a coverage-guided campaign (see `/verif/fuzz`): the input is a case of the part
+/// as JSON (what the replay files hold).  Returns `Err(message)` for a failure that is not a listed
+/// known finding; inputs that are not a case of this part are ignored.
+pub fn fuzz_one(prop: &Property, part: &str, known: &crate::known::Known, data: &[u8], out_dir: &std::path::Path) -> Result<(), String> {
+    let Some(p) = prop.parts.iter().find(|p| p.name() == part) else { return Ok(()) };
+    let Ok(case) = serde_json::from_slice::<Value>(data) else { return Ok(()) };
+    match p.replay(&case) {
+        Ok(None) | Err(_) => Ok(()),
+        Ok(Some(f)) if known.is_known(prop.id, &f.sig) => Ok(()),
+        Ok(Some(f)) => {
             let _ = std::fs::create_dir_all(out_dir);
-            let name = format!("fail-fuzz-{}-{:016x}.json", part, hash_json(&case));
-            let path = out_dir.join(name);
+            let path = out_dir.join(format!("fail-fuzz-{}-{:016x}.json", part, hash_json(&case)));
             let doc = json!({"property": prop.id, "part": part, "expect": "pass", "sig": f.sig, "msg": f.msg, "case": case});
             let _ = std::fs::write(&path, serde_json::to_vec_pretty(&doc).unwrap_or_default());
             Err(format!("[{}] {} (replay {})", f.sig, f.msg, path.display()))
         }
     }
+}
+
+// ---- structure-aware mutation of cases (generic: works on the JSON image of any case type) ----
+
+#[derive(Clone, Debug)]
+enum JSeg {
+    Key(String),
+    Idx(usize),
+}
+
+fn jget<'a>(v: &'a Value, path: &[JSeg]) -> Option<&'a Value> {
+    let mut cur = v;
+    for s in path {
+        cur = match s {
+            JSeg::Key(k) => cur.get(k.as_str())?,
+            JSeg::Idx(i) => cur.get(*i)?,
+        };
+    }
+    Some(cur)
+}
+
+fn jget_mut<'a>(v: &'a mut Value, path: &[JSeg]) -> Option<&'a mut Value> {
+    let mut cur = v;
+    for s in path {
+        cur = match s {
+            JSeg::Key(k) => cur.get_mut(k.as_str())?,
+            JSeg::Idx(i) => cur.get_mut(*i)?,
+        };
+    }
+    Some(cur)
+}
+
+fn jcollect(v: &Value, path: &mut Vec<JSeg>, arrays: &mut Vec<Vec<JSeg>>, nums: &mut Vec<Vec<JSeg>>, bools: &mut Vec<Vec<JSeg>>, all: &mut Vec<Vec<JSeg>>) {
+    if !path.is_empty() {
+        all.push(path.clone());
+    }
+    match v {
+        Value::Array(a) => {
+            arrays.push(path.clone());
+            for (i, x) in a.iter().enumerate() {
+                path.push(JSeg::Idx(i));
+                jcollect(x, path, arrays, nums, bools, all);
+                path.pop();
+            }
+        }
+        Value::Object(m) => {
+            for (k, x) in m.iter() {
+                path.push(JSeg::Key(k.clone()));
+                jcollect(x, path, arrays, nums, bools, all);
+                path.pop();
+            }
+        }
+        Value::Number(n) if n.is_u64() => nums.push(path.clone()),
+        Value::Bool(_) => bools.push(path.clone()),
+        _ => {}
+    }
+}
+
+/// 1–3 structural mutations: remove / duplicate / swap / truncate elements of a list (steps,
+/// operations, schedules …), insert an element or graft a subtree taken from the same place of a
+/// freshly generated `donor` case, tweak a number, flip a flag.  Enum variants stay well-formed
+/// because only whole elements and subtrees found under the same path are moved around; a result
+/// that is not a case any more is ignored by the target.
+pub fn mutate_case(case: &Value, donor: &Value, seed: u64) -> Value {
+    let mut out = case.clone();
+    let mut r = seed;
+    let mut next = move || {
+        r = splitmix(r);
+        r
+    };
+    let pick = |n: usize, x: u64| (x % n.max(1) as u64) as usize;
+    let n_mut = 1 + next() % 3;
+    for _ in 0..n_mut {
+        let (mut arrays, mut nums, mut bools, mut all) = (Vec::new(), Vec::new(), Vec::new(), Vec::new());
+        jcollect(&out, &mut Vec::new(), &mut arrays, &mut nums, &mut bools, &mut all);
+        match next() % 9 {
+            0 | 1 | 2 | 7 | 8 if !arrays.is_empty() => {
+                let kind = next() % 5;
+                let path = arrays[pick(arrays.len(), next())].clone();
+                let donor_arr: Option<Vec<Value>> = jget(donor, &path).and_then(|d| d.as_array().cloned());
+                let (a1, a2) = (next(), next());
+                if let Some(Value::Array(a)) = jget_mut(&mut out, &path) {
+                    match kind {
+                        0 if !a.is_empty() => {
+                            let i = pick(a.len(), a1);
+                            a.remove(i);
+                        }
+                        1 if !a.is_empty() && a.len() < 64 => {
+                            let i = pick(a.len(), a1);
+                            let x = a[i].clone();
+                            a.insert(i, x);
+                        }
+                        2 if a.len() >= 2 => {
+                            let i = pick(a.len(), a1);
+                            let j = pick(a.len(), a2);
+                            a.swap(i, j);
+                        }
+                        3 if a.len() >= 2 => {
+                            let keep = 1 + pick(a.len() - 1, a1);
+                            a.truncate(keep);
+                        }
+                        _ => {
+                            if let Some(d) = donor_arr {
+                                if !d.is_empty() && a.len() < 64 {
+                                    let x = d[pick(d.len(), a1)].clone();
+                                    let at = pick(a.len() + 1, a2);
+                                    a.insert(at, x);
+                                }
+                            }
+                        }
+                    }
+                }
+            }
+            3 | 4 if !all.is_empty() => {
+                // graft the donor's subtree found under the same path
+                let path = all[pick(all.len(), next())].clone();
+                if let Some(d) = jget(donor, &path).cloned() {
+                    if let Some(slot) = jget_mut(&mut out, &path) {
+                        *slot = d;
+                    }
+                }
+            }
+            5 if !nums.is_empty() => {
+                let path = nums[pick(nums.len(), next())].clone();
+                let dv = jget(donor, &path).and_then(|d| d.as_u64());
+                let how = next() % 8;
+                if let Some(slot) = jget_mut(&mut out, &path) {
+                    let v = slot.as_u64().unwrap_or(0);
+                    let nv = match how {
+                        0 => 0,
+                        1 => v.saturating_add(1),
+                        2 => v.saturating_sub(1),
+                        3 => v / 2,
+                        4 => 65_535.min(v.saturating_mul(2)).max(1),
+                        5 => 65_535,
+                        6 => 32_768,
+                        _ => dv.unwrap_or(v),
+                    };
+                    *slot = Value::from(nv);
+                }
+            }
+            6 if !bools.is_empty() => {
+                let path = bools[pick(bools.len(), next())].clone();
+                if let Some(slot) = jget_mut(&mut out, &path) {
+                    if let Some(b) = slot.as_bool() {
+                        *slot = Value::Bool(!b);
+                    }
+                }
+            }
+            _ => {}
+        }
+    }
+    out
 }
 
 /// A property = list of parts + metadata for the evidence file.
@@ -880,14 +1002,14 @@ pub fn boxed<S: Strategy + 'static>(s: S) -> BoxedStrategy<S::Value> {
     s.boxed()
 }
 
-/// Turns a libFuzzer input of the generic target into an ordinary replay file (without running it).
+/// Turns a libFuzzer input of the generic target (a case as JSON) into an ordinary replay file.
 pub fn fuzz_input_to_replay(prop: &Property, part: &str, data: &[u8]) -> Result<std::path::PathBuf, String> {
-    let p = prop.parts.iter().find(|p| p.name() == part).ok_or_else(|| format!("unknown part {}", part))?;
-    let case = p.fuzz_generate(data).ok_or("the strategy rejected these bytes")?;
+    prop.parts.iter().find(|p| p.name() == part).ok_or_else(|| format!("unknown part {}", part))?;
+    let case: Value = serde_json::from_slice(data).map_err(|e| format!("the input is not a JSON case: {}", e))?;
     let dir = std::path::Path::new(VERIF_ROOT).join("replays").join(prop.id);
     std::fs::create_dir_all(&dir).map_err(|e| e.to_string())?;
     let path = dir.join(format!("fail-fuzz-{}-{:016x}.json", part, hash_json(&case)));
-    let doc = json!({"property": prop.id, "part": part, "expect": "pass", "sig": "", "msg": "generated from a libFuzzer input", "case": case});
+    let doc = json!({"property": prop.id, "part": part, "expect": "pass", "sig": "", "msg": "libFuzzer input of the generic target", "case": case});
     std::fs::write(&path, serde_json::to_vec_pretty(&doc).unwrap_or_default()).map_err(|e| e.to_string())?;
     Ok(path)
 }
